@@ -22,7 +22,7 @@ Print Assumptions C02_ios_example_converges.
    is exactly the target ACL.  Scripts with repeated lines (moves, the
    direction-aware suppression inside a block) are not covered by this theorem;
    for them the model is evaluated per case. *)
-From NA Require Import Cisco.IosAclFresh.
+From NA Require Import Cisco.IosAclFresh Cisco.IosAclMoves.
 Theorem C02_ios_fresh_script_converges_partial :
   forall m cs, fresh m -> short_runs m 0 -> diff_ios m = Some cs ->
   exists l', iexec_all (reseq (listA m)) cs = Some l' /\ map snd l' = listB m.
@@ -38,4 +38,34 @@ Proof.
   - unfold fresh. cbn. repeat constructor; cbn; intuition discriminate.
   - cbn. repeat split; lia.
   - eexists. split; [vm_compute; reflexivity | discriminate].
+Qed.
+
+(* For EVERY edit script, moves included: if no line occurs twice in the device
+   ACL nor in the target ACL (IOS refuses such ACLs) and every inserted run has
+   fewer than 10000 lines, every numbered command — insert, joined "no N / M line",
+   delete — is accepted by the numbered ACL of the device, and the resulting ACL is
+   final_list m: the kept lines, the deleted lines whose move was suppressed at
+   their old place, the new and the really moved lines at their new place.
+   (That final_list m filters like the target is the block logic; see
+   C02_ios_final_filters_like_target.) *)
+Theorem C02_ios_every_script_accepted :
+  forall m cs, nodupA m -> nodupB m -> short_runs m 0 -> diff_ios m = Some cs ->
+  exists l', iexec_all (reseq (listA m)) cs = Some l' /\ map snd l' = final_list m.
+Proof. exact ios_moves_accepted. Qed.
+Print Assumptions C02_ios_every_script_accepted.
+
+(* satisfiable: a script with a real move (P 4 across the new D 9) and one with a suppressed move *)
+Example C02_moves_example :
+  let m1 := [(Keep, P 1); (Add, P 4); (Add, D 9); (Keep, P 2); (Keep, P 3); (Drop, P 4)] in
+  let m2 := [(Drop, P 1); (Keep, P 2); (Add, P 1); (Keep, D 7)] in
+  (nodupA m1 /\ nodupB m1 /\ short_runs m1 0 /\ diff_ios m1 = Some [IMove 40000 10001 (P 4); INum 10002 (D 9)]%N /\ final_list m1 = listB m1) /\
+  (nodupA m2 /\ nodupB m2 /\ short_runs m2 0 /\ diff_ios m2 = Some [] /\ final_list m2 = [P 1; P 2; D 7] /\ listB m2 = [P 2; P 1; D 7]).
+Proof.
+  cbv zeta. split.
+  - split; [unfold nodupA; cbn; repeat constructor; cbn; intuition discriminate|].
+    split; [unfold nodupB; cbn; repeat constructor; cbn; intuition discriminate|].
+    split; [cbn; repeat split; lia|]. split; vm_compute; reflexivity.
+  - split; [unfold nodupA; cbn; repeat constructor; cbn; intuition discriminate|].
+    split; [unfold nodupB; cbn; repeat constructor; cbn; intuition discriminate|].
+    split; [cbn; repeat split; lia|]. repeat split; vm_compute; reflexivity.
 Qed.
